@@ -57,6 +57,20 @@ def rangeCount (start stop incr : Int) : Nat :=
 def range (start stop incr : Int) : List Int :=
   (List.range (rangeCount start stop incr)).map fun (k : Nat) => start + (k : Int) * incr
 
+/-- `a` lies strictly before `stop` in the direction of `incr`. -/
+def before (incr a stop : Int) : Bool :=
+  (decide (incr > 0) && decide (a < stop)) || (decide (incr < 0) && decide (a > stop))
+
+/-- `{@range start stop incr}` term by term, in unbounded integers: `start + k·incr` for `k = 0, 1, …`
+    as long as the term lies strictly before `stop`; `none` when more than `limit` terms would be
+    produced.  (`range` above is the same list in closed form.) -/
+def progWhile (start stop incr : Int) : (limit : Nat) → (k : Nat) → Option (List Int)
+  | 0, k => if before incr (start + (k : Int) * incr) stop then none else some []
+  | limit + 1, k =>
+    if before incr (start + (k : Int) * incr) stop then
+      (progWhile start stop incr limit (k + 1)).map ((start + (k : Int) * incr) :: ·)
+    else some []
+
 /-- `{@for start cond next}`: `v₀ = start`, `vₖ₊₁ = next vₖ k`; the values before the first `k` with
     `cond vₖ k` false.  `none` when more than `limit` values would be produced. -/
 def iterateWhile (cond : Bytes → Nat → Bool) (next : Bytes → Nat → Bytes) :
